@@ -48,15 +48,36 @@ def gen_table(rnd: random.Random):
 def build_scenario(rnd: random.Random, cycles, entries, nsteps, real=False):
     cell = gen.gen_cell(rnd, triclinic=0.0)
     n = rnd.randint(2, 4)
-    sc = {"driver": "Canonical" if real else "MonteCarlo", "seed": rnd.randint(1, 2**31 - 1),
+    driver = rnd.choice(["Canonical", "Canonical", "Isobaric", "Isotension", "GrandCanonical"]) if real else "MonteCarlo"
+    sc = {"driver": driver, "seed": rnd.randint(1, 2**31 - 1),
           "atoms": gen.gen_atoms(rnd, n, cell, arrays=0.0, uid=False),
-          "calc": {"style": "caching", "pot": gen.gen_pot(rnd, cell)},
+          "calc": {"style": "caching", "pot": gen.gen_pot(rnd, cell, cellterm=driver in ("Isobaric", "Isotension"))},
           "params": {"max_cycles": cycles, "temperature": 500.0}, "moves": [],
           "steps": [{"n": nsteps}], "step_count": rnd.choice([0, 0, 1, 7, 1000003])}
+    if driver in ("Isobaric", "Isotension"):
+        sc["params"]["pressure"] = gen.logu(rnd, 1e-4, 1e-2)
+    if driver == "GrandCanonical":
+        sc["exchange"] = gen.gen_atoms(rnd, 1, cell, arrays=0.0, uid=False, spread=0.1)
+        sc["params"].update({"chemical_potential": gen.rfloat(rnd, -0.5, 0.5, 3), "number_of_exchange_particles": n})
+    # the names the drivers give to moves handed to their constructors: a user may register (or restore) entries under
+    # them with weights of his own
+    default_names = rnd.random() < 0.5
+    used = set()
     for e in entries:
         m = dict(e)
         if real:
-            m["move"] = {"type": "disp", "labels": list(range(n)), "op": {"type": "Ball", "step": 0.05}}
+            kind = rnd.choice({"Isobaric": ["disp", "cell"], "Isotension": ["disp", "cell"],
+                               "GrandCanonical": ["disp", "exch"]}.get(driver, ["disp"]))
+            if kind == "disp":
+                m["move"] = {"type": "disp", "labels": list(range(n)), "op": {"type": "Ball", "step": 0.05}}
+            elif kind == "cell":
+                m["move"] = {"type": "cell", "op": {"type": "IsotropicDeformation", "max": 0.01}}
+            else:
+                m["move"] = {"type": "exch", "labels": list(range(n)), "op": {"type": "Translation"}, "bias": 0.5}
+            dn = {"disp": "default_displacement_move", "cell": "default_cell_move", "exch": "default_exchange_move"}[kind]
+            if default_names and dn not in used:
+                used.add(dn)
+                m["name"] = dn
         else:
             m["move"] = {"type": "bare", "kind": "noop", "results": [True]}
             m["criteria"] = "bare"
